@@ -544,4 +544,45 @@ def wireUp (wired : List Bool) (n : Node) : Node :=
 /-- the node as `PrimaiteGame.from_config` leaves it -/
 def loadNode (d : Decl) : Node := wireUp d.wired (loaderPower d (construct d))
 
+/-! ### user sessions, as far as power goes (`UserSessionManager.pre_timestep`, `_login`)
+
+The session manager is a service of the node; the only per-tick work a node does while it is not ON is the time-out
+sweep of this service's `pre_timestep`, which consults neither the node's power state nor the service's own state. -/
+
+structure Sessions where
+  /-- `current_timestep` (set by every `pre_timestep`; sessions are stamped with it) -/
+  now : Int := 0
+  /-- `last_active_step` of the local session, if there is one -/
+  loc : Option Int := none
+  /-- `last_active_step` of each remote session, in dictionary order -/
+  rem : List Int := []
+  localTimeout : Int := 30
+  remoteTimeout : Int := 30
+  maxRemote : Nat := 3
+deriving DecidableEq, Repr
+
+/-- `UserSessionManager.pre_timestep(t)`: a session whose `last_active_step + timeout <= t` is timed out -/
+def Sessions.pre (s : Sessions) (t : Int) : Sessions :=
+  { s with now := t,
+           loc := match s.loc with
+             | some l => if l + s.localTimeout ≤ t then none else some l
+             | none => none,
+           rem := s.rem.filter (fun r => !decide (r + s.remoteTimeout ≤ t)) }
+
+/-- `_login` with right credentials: `_can_perform_action` first (node ON and the service RUNNING); a local login of the
+user already logged in locally answers the existing session; a remote login is refused at the session limit -/
+def Sessions.login (s : Sessions) (canPerform remote : Bool) : Sessions × Bool :=
+  if !canPerform then (s, false)
+  else if remote then
+    if s.rem.length ≥ s.maxRemote then (s, false) else ({ s with rem := s.rem ++ [s.now] }, true)
+  else match s.loc with
+    | some _ => (s, true)
+    | none => ({ s with loc := some s.now }, true)
+
+/-- the user-session-manager service can act: node ON and the service (index `i` among the node's services) RUNNING -/
+def usmCanPerform (n : Node) (i : Nat) : Bool :=
+  match n.svcs[i]? with
+  | some sv => sv.canPerform n.isOn
+  | none => false
+
 end Primaite.Power
